@@ -226,7 +226,8 @@ func protoShapes() []*fuzzInput {
 		add("post-native-line-"+strconv.Itoa(i), wire.HTTPPost, "POST / HTTP/1.1\r\nContent-Length: "+strconv.Itoa(len(line))+"\r\n\r\n"+line)
 		add("native-line-"+strconv.Itoa(i), wire.Native, "$"+strconv.Itoa(len(line))+" "+line+"\r\n")
 	}
-	add("known-jset-balloon", wire.RESP, "*5\r\n$4\r\nJSET\r\n$7\r\nballoon\r\n$3\r\ndoc\r\n$8\r\n99999999\r\n$1\r\n1\r\n")
+	add("known-line-within-line", wire.RESP, string(wire.EncodeRESP("TEST", "OBJECT", `{"type":"LineString","coordinates":[[0,0],[1,0],[1,1]]}`, "WITHIN", "OBJECT", `{"type":"LineString","coordinates":[[0,0],[1,0],[2,0]]}`)))
+	add("known-jset-balloon", wire.RESP, "*5\r\n$4\r\nJSET\r\n$7\r\nballoon\r\n$3\r\ndoc\r\n$9\r\n999999999\r\n$1\r\n1\r\n")
 	add("http-no-path", wire.HTTPGet, "GET  HTTP/1.1\r\n\r\n")
 	add("http-root", wire.HTTPGet, "GET / HTTP/1.1\r\n\r\n")
 	add("http-bad-escape", wire.HTTPGet, "GET /PING%zz HTTP/1.1\r\n\r\n")
@@ -454,11 +455,7 @@ func (q *quarantine) skip(in *fuzzInput) bool {
 		return in.Tmpl != "known-jset-balloon"
 	}
 	if lineWithinLineIn(in) {
-		if q.words["line-within-line"] {
-			return true
-		}
-		q.words["line-within-line"] = true
-		return false
+		return in.Tmpl != "known-line-within-line"
 	}
 	return false
 }
